@@ -135,7 +135,8 @@ func worker() {
 				break
 			}
 			ls := tape.Mix(*seed, *propID+"/cold", j)
-			o, err := evalProc(nil, ls, true, false)
+			// the run's first choice is its stratum index: cold strata are covered systematically
+			o, err := evalProc([]uint32{uint32(j)}, ls, true, false)
 			if err != nil {
 				if len(out.Infra) < 5 {
 					out.Infra = append(out.Infra, fmt.Sprintf("cold run %d: %v", j, err))
@@ -208,7 +209,11 @@ func one() {
 	p := getProp()
 	var src *tape.Source
 	if *liveSeed != 0 {
-		src = tape.Live(*liveSeed)
+		var pre []uint32
+		if b, err := os.ReadFile(*tapeF); err == nil {
+			json.Unmarshal(b, &pre)
+		}
+		src = tape.LivePrefix(*liveSeed, pre)
 	} else {
 		var t []uint32
 		b, err := os.ReadFile(*tapeF)
